@@ -1,15 +1,113 @@
-"""C07  Summation generators compute exact sums within the promised basis and size
+"""C07  Summation generators compute exact sums within the promised basis and size.
 
-P: (deductive obligations for this property are added in vlib/props/C07.py as they are built)
-B: vlib/bounded/C07.py (bounded stand-in; never counted as proved)."""
+P (all operand values, all host circuits, all operand aliasing):
+   leaf gadgets add_sum2/3, add_sum2_aig/3_aig, add_stockmeyer_block, add_mdfa, add_simplified_mdfa;
+   add_sum_n_bits for n <= NB in both bases and every basis spelling; add_sum_two_numbers and
+   add_sum_two_numbers_with_shift for widths <= W (width-bounded: the ripple loops are unrolled, so each
+   obligation is universal in values and hosts but not in the width); freshness frame, WF, AIG basis.
+B: vlib/bounded/C07.py (weighted sums with SortedList work lists, pow2_m1, gate-count bounds, larger widths)."""
+import z3
+
 from .. import env
-from .common import STD_TRUSTED, STD_ASSUME, run_bounded
+from ..pyvc.prove import Prover
+from .arith_common import HostGadget, val_le, b2i
+from .common import new_interp, finish_refuted, canary, STD_TRUSTED, STD_ASSUME, run_bounded
 
-LEVEL = 'exploration'
+LEVEL = 'other'
+SUM = 'cirbo/synthesis/generation/arithmetics/summation.py'
+
+
+def spec_sum(levels=None):
+    def f(xs, rs, st):
+        yield ('sum-of-bits', val_le(rs) == z3.Sum([b2i(x) for x in xs]))
+    return f
+
+
+def spec_stockmeyer(xs, rs, st):
+    x1, x2, x23 = xs
+    x3 = z3.Xor(x2, x23)
+    yield ('x1+x2+x3', val_le(rs) == b2i(x1) + b2i(x2) + b2i(x3))
+
+
+def spec_mdfa(xs, rs, st):
+    z, x1, xy1, x2, xy2 = xs
+    y1, y2 = z3.Xor(x1, xy1), z3.Xor(x2, xy2)
+    z_, x_, xy_ = rs
+    y_ = z3.Xor(x_, xy_)
+    yield ('z+x1+y1+x2+y2', b2i(z) + b2i(x1) + b2i(y1) + b2i(x2) + b2i(y2) == b2i(z_) + 2 * (b2i(x_) + b2i(y_)))
+
+
+def spec_smdfa(xs, rs, st):
+    x1, xy1, x2, xy2 = xs
+    y1, y2 = z3.Xor(x1, xy1), z3.Xor(x2, xy2)
+    z_, x_, xy_ = rs
+    y_ = z3.Xor(x_, xy_)
+    yield ('x1+y1+x2+y2', b2i(x1) + b2i(y1) + b2i(x2) + b2i(y2) == b2i(z_) + 2 * (b2i(x_) + b2i(y_)))
+
+
+def spec_add(n, m, shift=0, big_endian=False):
+    def f(xs, rs, st):
+        a, b = xs[:n], xs[n:n + m]
+        if big_endian:
+            a, b, rs_ = a[::-1], b[::-1], rs[::-1]
+        else:
+            rs_ = rs
+        yield ('a+b*2^shift', val_le(rs_) == val_le(a) + val_le(b) * (2 ** shift))
+        if shift == 0:
+            yield ('length', z3.BoolVal(len(rs) == max(n, m) + 1))
+    return f
+
+
+def contracts(quick):
+    cs = []
+    leaf = [('add_sum2', 2, spec_sum(), False, 2), ('add_sum3', 3, spec_sum(), False, 5),
+            ('add_sum2_aig', 2, spec_sum(), True, 3), ('add_sum3_aig', 3, spec_sum(), True, 7),
+            ('add_stockmeyer_block', 3, spec_stockmeyer, False, 4), ('add_mdfa', 5, spec_mdfa, False, 8),
+            ('add_simplified_mdfa', 4, spec_smdfa, False, 6)]
+    for fn, n, sp, aig, mx in leaf:
+        cs.append(HostGadget(SUM, fn, n, sp, label=fn, basis_aig=aig, max_new=mx))
+    NB = 5 if quick else 7
+    for n in range(1, NB + 1):
+        for basis, aig in (('XAIG', False), ('AIG', True), ('aig', True), ('Xaig', False)):
+            if n > 3 and basis in ('aig', 'Xaig'):
+                continue
+            cs.append(HostGadget(SUM, 'add_sum_n_bits', n, spec_sum(), label=f'add_sum_n_bits/n{n}/{basis}', kwargs={'basis': basis}, basis_aig=aig))
+        cs.append(HostGadget(SUM, 'add_sum_n_bits_easy', n, spec_sum(), label=f'add_sum_n_bits_easy/n{n}'))
+    W = 3 if quick else 4
+    for n in range(1, W + 1):
+        for m in range(1, W + 1):
+            for be in (False, True):
+                if be and (n, m) not in ((2, 3), (3, 2), (2, 2)):
+                    continue
+                cs.append(HostGadget(SUM, 'add_sum_two_numbers', n + m, spec_add(n, m, 0, be), label=f'add_sum_two_numbers/{n}x{m}/{"be" if be else "le"}',
+                                     shape=(n, m), kwargs={'big_endian': be}))
+    for n, m, sh in [(1, 1, 0), (2, 2, 1), (2, 1, 2), (1, 2, 3), (3, 2, 1), (2, 3, 2), (1, 1, 2), (2, 2, 4)]:
+        for be in (False, True):
+            if be and (n, m, sh) not in ((2, 2, 1), (1, 2, 3)):
+                continue
+            def builder(sx, n=n, m=m, sh=sh):
+                from ..pyvc.values import VList
+                return [sh, VList(sx[:n]), VList(sx[n:n + m])]
+            cs.append(HostGadget(SUM, 'add_sum_two_numbers_with_shift', n + m, spec_add(n, m, sh, be), label=f'add_sum_two_numbers_with_shift/{n}x{m}<<{sh}/{"be" if be else "le"}',
+                                 arg_builder=builder, kwargs={'big_endian': be}))
+    return cs
 
 
 def run(rep):
     quick = env.TIER != 'thorough'
-    rep.trusted_base = list(STD_TRUSTED)
+    rep.trusted_base = list(STD_TRUSTED) + ['abstract circuit model vlib/pyvc/circuit_model.py (python dict/list semantics of the five Circuit fields as count/positional views)']
+    for a in STD_ASSUME:
+        rep.assume(a)
+    rep.assume('width-bounded P: adders and add_sum_n_bits are proved per width (loops unrolled) for all operand values and all hosts; larger widths and the weighted work-list generators are bounded-only')
+    rep.assume('uuid4-based labels are arbitrary labels; the retry loops are cut with the trivial invariant (termination assumed)')
+    it = new_interp()
+    pv = Prover(rep, it, 'C07')
+    for c in contracts(quick):
+        pv.run_contract(c)
+    a, b = z3.Bools('a b')
+    canary(rep, pv, 'C07/canary/half-adder-carry-is-or', [], b2i(z3.Xor(a, b)) + 2 * b2i(z3.Or(a, b)) == b2i(a) + b2i(b))
+    refuted = pv.discharge(env.NPROC)
+    finish_refuted(rep, pv, refuted)
     run_bounded(rep, 'C07', quick)
-    rep.extra['explanation'] = 'bounded stand-in only in this build'
+    rep.extra['explanation'] = ('Leaf gadgets and width-bounded adders: value equations, freshness frame, WF and basis membership proved by symbolic execution of the '
+                                'real generator + circuit code on an abstract host circuit; unbounded widths / weighted generators: bounded stand-in.')
